@@ -13,6 +13,8 @@
 (*        the roots at that moment (Safe of AbraGC on the logged graph)    *)
 (*   C07  cycle end: every object that was unreachable when the cycle      *)
 (*        started has been freed by the end of that cycle                  *)
+(*        at the start of every cycle heap_size equals the sum of the     *)
+(*        sizes of the objects on the heap list (pacing relies on it)      *)
 (*   protocol: phases alternate Idle -> Marking -> Sweeping -> Idle; an    *)
 (*        allocation is black iff a cycle is in progress; heap_list holds  *)
 (*        exactly the live allocations; grey stack empty when sweeping     *)
@@ -32,6 +34,11 @@ RECURSIVE Reach(_, _, _)
 Reach(edges, front, seen) == IF front = {} THEN seen
                              ELSE LET nxt == Succs(edges, front) \ seen IN Reach(edges, nxt, seen \cup nxt)
 ReachOf(snap) == LET r == Rng(snap.roots) \ {0} IN Reach(snap.edges, r, r)
+
+RECURSIVE SumSeq(_)
+SumSeq(q) == IF q = <<>> THEN 0 ELSE q[1] + SumSeq(Tail(q))
+\* C07: the collector's pacing relies on heap_size being the sum of the sizes of the allocated objects
+AccountingOK(snap) == snap.heap_size = SumSeq(snap.sizes)
 
 Get(f, t, d) == IF t \in DOMAIN f THEN f[t] ELSE d
 Put(f, t, v) == [x \in DOMAIN f \cup {t} |-> IF x = t THEN v ELSE f[x]]
@@ -62,6 +69,7 @@ StartEv ==
         ELSE IF Rng(s.heap) # Get(alive, t, {}) THEN Bad("heap-list-differs-from-live-allocations", <<Rng(s.heap) \ Get(alive, t, {}), Get(alive, t, {}) \ Rng(s.heap)>>)
         ELSE IF ~((Rng(s.roots) \ {0}) \cap Rng(s.heap) \subseteq Rng(s.marked)) THEN Bad("root-not-marked-at-start", (Rng(s.roots) \cap Rng(s.heap)) \ Rng(s.marked))
         ELSE IF ~(Rng(s.gray) \subseteq Rng(s.marked)) THEN Bad("grey-not-marked", Rng(s.gray) \ Rng(s.marked))
+        ELSE IF ~AccountingOK(s) THEN Bad("heap-size-differs-from-sum-of-object-sizes", <<s.heap_size, SumSeq(s.sizes)>>)
         ELSE UNCHANGED viol
   /\ UNCHANGED <<alive, nsweeps, ncycles, cur>>
 
